@@ -30,6 +30,19 @@ MUTS = [
     ("weekday range 0 accepted", "if not 0 < day < 8:", "if not -1 < day < 8:"),
     ("parse_isodate leftover check off by one", "if pos < len(datestr):", "if pos + 1 < len(datestr):"),
     ("stream not read", "str_in = getattr(str_in, 'read', lambda: str_in)()", "str_in = str_in"),
+    ("week-1 Monday off by one (dropped -1)", "timedelta(days=jan_4.isocalendar()[2] - 1)", "timedelta(days=jan_4.isocalendar()[2])"),
+    ("week range 53 excluded", "if not 0 < week < 54:", "if not 0 < week < 53:"),
+    ("dash consistency in calendar dates dropped", "if dt_str[pos:pos + 1] != self._DATE_SEP:\n                raise ValueError('Invalid separator in ISO string')", "if False:\n                pass"),
+    ("colon accepted late (hhmm:ss)", "if comp == 1 and timestr[pos:pos+1] == self._TIME_SEP:", "if comp >= 1 and timestr[pos:pos+1] == self._TIME_SEP:"),
+    ("digit separator allowed in constructor", "if (len(sep) != 1 or ord(sep) >= 128 or sep in '0123456789'):", "if (len(sep) != 1 or ord(sep) >= 128):"),
+    ("parse_isotime keeps hour 24", "if components[0] == 24:\n            components[0] = 0\n        return time(*components)", "return time(*components)"),
+    ("ordinal day off by one", "timedelta(days=ordinal_day - 1)", "timedelta(days=ordinal_day)"),
+    ("YYYY-MM without day rejected / boundary", "if pos >= len_str:\n            if has_sep:\n                return components, pos", "if pos > len_str:\n            if has_sep:\n                return components, pos"),
+    ("month width boundary", "if len_str - pos < 2:\n            raise ValueError('Invalid common month')", "if len_str - pos < 1:\n            raise ValueError('Invalid common month')"),
+    ("second colon swallowed without has_sep", "elif comp == 2 and has_sep:", "elif comp == 2:"),
+    ("fraction: 5 digits kept instead of 6", "us_str = frac.group(1)[:6]", "us_str = frac.group(1)[:5]"),
+    ("zero_as_utc ignored", "if zero_as_utc and hours == 0 and minutes == 0:", "if hours == 0 and minutes == 0:"),
+    ("leap test for ordinal uses wrong year", "ordinal_day > (365 + calendar.isleap(year))", "ordinal_day > (365 + calendar.isleap(year + 1))"),
 ]
 
 def main():
